@@ -13,6 +13,8 @@ extract_tmpl.register()
 HARNESS = "harness/tmpl_h.c"
 OPERATORS = list(extract_tmpl.OPERATORS)
 ACCESSORS = list(extract_tmpl.ACCESSORS)
+STRING_OPS = list(extract_tmpl.STRING_OPS)     # separate lists: OPERATORS + ACCESSORS is what C20.tmpl.ub iterates over
+FLOAT_OPS = list(extract_tmpl.FLOAT_OPS)
 GI = ["--no-malloc-may-fail"]
 
 # what every obligation built on the catalogue assumes / leaves out (merged into the META of the property registries)
